@@ -1,0 +1,55 @@
+//! Verification seam for the random draws of the client transports.
+//!
+//! Only compiled with the `verif-hooks` feature. `random` and
+//! `random_range` stand in for the functions of the same name of the `rand`
+//! crate as used by `redundant`, `load_balancer` and `multi_stream`. When
+//! a backend has been registered (by a model-checking harness) it decides
+//! every draw; otherwise `rand` is used as always.
+#![allow(missing_docs)]
+
+use core::ops::RangeInclusive;
+use std::sync::OnceLock;
+
+/// Returns a number in `[0, 1)` for the draw with the given label.
+pub type Backend = fn(&'static str) -> f64;
+
+static BACKEND: OnceLock<Backend> = OnceLock::new();
+
+/// Registers the backend. Can be done once per process.
+pub fn set_backend(backend: Backend) -> bool {
+    BACKEND.set(backend).is_ok()
+}
+
+/// Types that can be drawn uniformly from the unit interval.
+pub trait FromUnit: Sized {
+    fn from_unit(unit: f64) -> Self;
+    fn fallback() -> Self;
+}
+
+impl FromUnit for f64 {
+    fn from_unit(unit: f64) -> Self {
+        unit
+    }
+    fn fallback() -> Self {
+        rand::random()
+    }
+}
+
+pub fn random<T: FromUnit>() -> T {
+    match BACKEND.get() {
+        Some(backend) => T::from_unit(backend("random")),
+        None => T::fallback(),
+    }
+}
+
+pub fn random_range(range: RangeInclusive<usize>) -> usize {
+    match BACKEND.get() {
+        Some(backend) => {
+            let (lo, hi) = (*range.start(), *range.end());
+            let width = hi - lo + 1;
+            let unit = backend("random_range").clamp(0.0, 0.999_999);
+            lo + ((unit * width as f64) as usize).min(width - 1)
+        }
+        None => rand::random_range(range),
+    }
+}
